@@ -43,7 +43,7 @@ def obligations(tier, scratch):
 
     quick = tier == "quick"
     path = os.path.join(scratch, "gen_c07.py")
-    src = ["from checks.c07_lib import run, run_coalesced, codec", ""]
+    src = ["from checks.c07_lib import run, run_coalesced, codec, via_connect", ""]
     obs = []
     for tag, script, reads in SCRIPTS:
         n = len(script)
@@ -94,6 +94,20 @@ def {name}(t0: int, cut: int, gap: int) -> bool:
             obs.append({"name": name, "module_path": path, "function": name, "cap": 900, "opaque": True, "twin_cap": 120,
                         "meta": {"gateway_script": script, "delivery": "one segment, or two segments cut at a symbolic byte offset of the whole stream",
                                  "cut_range": [lo, hi], "reads": reads}})
+    for tag, uri, ato in (("default", "hsfz://127.0.0.1:6801?src_addr=0xf4&dst_addr=0x10", 1000),
+                          ("250", "hsfz://127.0.0.1:6801?src_addr=0xf4&dst_addr=0x10&ack_timeout=250", 250),
+                          ("2500", "hsfz://127.0.0.1?src_addr=0xf4&dst_addr=0x10&ack_timeout=2500", 2500)):
+        name = f"via_connect_{tag}"
+        src.append(f'''
+def {name}(t_ack: int) -> bool:
+    """
+    pre: 0 <= t_ack <= 4000000
+    post: _
+    """
+    return via_connect({uri!r}, {ato}, t_ack)
+''')
+        obs.append({"name": name, "module_path": path, "function": name, "cap": 300, "opaque": True, "twin_cap": 60,
+                    "meta": {"set_up": "HSFZTransport.connect(" + uri + ")", "ack_instant": "symbolic", "configured_ack_timeout_ms": ato}})
     src.append('''
 def header_codec(b: bytes) -> bool:
     """
